@@ -20,9 +20,13 @@ PROP = dict(
         "registerCallback, unregisterCallback, processQueryAnswer, Client.reader, Connection.Send, Connection.reconnect regenerated "
         "into TongoGen/ClientOrder.lean with 8 decide-d obligations on every run; (ii) histories of real executions accepted by "
         "checkHistory; (iii) predicted result classes of deterministic scripts",
-        "history checker ClientSM.checkHistory (executable, NOT verified): inserts the hidden actions and checks each is enabled; "
-        "the round-robin counter is not replayed (order of concurrent callers at connMutex is unobservable) — covered by theorem "
-        "round_robin + go.client.roundrobin",
+        "history checker ClientSM.checkHistory (executable, NOT verified): inserts the hidden actions (register/pickConn/send, deliver/"
+        "chanSend, recv/timeout/unregister, socket death, reconnect steps incl. stale spawned reconnects) and checks each is enabled and "
+        "each observed result is the one the system produces; placement rules: packets delivered in wire order per connection when a "
+        "result needs them, queries a server reads late are placed before their connection refuses sends, failing sends as late as "
+        "possible, lost queries as early as possible. The round-robin counter is not replayed (order of concurrent callers at connMutex "
+        "is unobservable) — covered by theorem round_robin + go.client.roundrobin. Timeouts are accepted whenever the call is waiting "
+        "(the model's deadline is the environment's), so 'timeouts only for unanswered ids' is checked only by the deterministic scenarios",
         "scripted ADNL server harness/cmd/vh/adnlsrv.go + c12.go; event log order = wire order per connection (events and I/O under one mutex)",
         "hooks liteclient/client_verif.go, adnl_verif.go (build tag verif): extra connections option, registry accessors, VerifRetire",
     ],
